@@ -178,3 +178,46 @@ def near_collisions(rng, nbytes=32):
 
 
 UNICODE_WS = ["\u00a0", "\u2003", "\u3000", "\u2028", "\u0085", "\u1680", "\u202f"]
+
+
+def respell_json_strings(rng, text, p_doc=0.12, p_char=0.3):
+    """Re-spells characters inside the string literals (keys and values) of a VALID JSON text as \\uXXXX escapes. The text denotes
+    the same document; what changes is how the parser hands the strings over (a string with an escape cannot be borrowed from
+    the input, so serde visitors receive it through visit_str / visit_string instead of visit_borrowed_str)."""
+    if rng.random() >= p_doc:
+        return text
+    out = []
+    i, n = 0, len(text)
+    while i < n:
+        c = text[i]
+        if c != '"':
+            out.append(c)
+            i += 1
+            continue
+        out.append(c)
+        i += 1
+        hot = rng.random() < 0.6          # not every literal of the document
+        while i < n and text[i] != '"':
+            if text[i] == "\\":
+                out.append(text[i:i + 2])
+                if text[i + 1] == "u":
+                    out.append(text[i + 2:i + 6])
+                    i += 6
+                else:
+                    i += 2
+                continue
+            ch = text[i]
+            if hot and rng.random() < p_char:
+                o = ord(ch)
+                if o < 0x10000:
+                    out.append("\\u%04x" % o if rng.random() < 0.5 else "\\u%04X" % o)
+                else:
+                    o -= 0x10000
+                    out.append("\\u%04x\\u%04x" % (0xd800 + (o >> 10), 0xdc00 + (o & 0x3ff)))
+            else:
+                out.append(ch)
+            i += 1
+        if i < n:
+            out.append('"')
+            i += 1
+    return "".join(out)
